@@ -414,6 +414,42 @@ func rulesC05(w *World, o *Out) {
 	}
 
 	checkpointProvenance(w, o, fl, "C05.R2")
+	// defaults on the signing path replace a *missing* fee record only: the remote contract receives the
+	// message's own fee values (VerifyAgainstTX packs m.Fees.X as they are), so a value-dependent
+	// substitution (0 -> default) makes two different deliveries share one signature
+	if fd := w.Func("x/evm/types", "", "feesOrDefault"); fd != nil && len(fd.Params) == 1 {
+		o.Analysed(w.FuncKey(fd))
+		okF, why := true, ""
+		for _, r := range Returns(fd) {
+			if len(r.Ret.Results) != 1 {
+				continue
+			}
+			v := canon(r.Ret.Results[0])
+			if v == ssa.Value(fd.Params[0]) {
+				continue
+			}
+			al, isAl := v.(*ssa.Alloc)
+			if !isAl {
+				okF, why = false, "returns "+v.String()
+				continue
+			}
+			for _, rf := range *al.Referrers() {
+				fa, isFA := rf.(*ssa.FieldAddr)
+				if !isFA {
+					continue
+				}
+				for _, rf2 := range *fa.Referrers() {
+					if st, isSt := rf2.(*ssa.Store); isSt && st.Addr == ssa.Value(fa) {
+						if _, isC := canon(st.Val).(*ssa.Const); !isC {
+							okF, why = false, "the substituted record's "+fieldName(fa.X.Type(), fa.Field)+" is computed from "+st.Val.String()
+						}
+					}
+				}
+			}
+		}
+		o.Check("C05.R1", "feesOrDefault|a default replaces only a missing fee record, never an individual fee value", okF, w.Pos(fd.Pos()),
+			"the signed bytes must distinguish every fee value that can be delivered; "+why)
+	}
 
 	// ---- R3 ----
 	put := w.MustFunc(o, "x/consensus/keeper/consensus", "Queue", "Put")
